@@ -4,7 +4,7 @@ set -u
 patch=$1; id=$2; tier=${3:-quick}
 cd /repo || exit 2
 if ! git diff --quiet; then echo "repo not clean"; exit 2; fi
-git apply "$patch" || { echo "patch does not apply"; exit 2; }
+git apply "$(cd /verif && realpath "$patch")" || { echo "patch does not apply"; exit 2; }
 cd /verif && timeout 3000 bin/check "$id" "$tier" > /tmp/trypatch_$id.log 2>&1
 rc=$?
 git -C /repo checkout -- .; git -C /verif checkout -- evidence
